@@ -13,7 +13,7 @@ theorem R.of_anchorOnly {P : Nat} {a a' : AState} {s s' : Sess} (r : R P a s) (a
     (aanch : ∀ A, a'.anchor = some A → A ≤ a'.cur ∧ 1 ≤ a'.nanchor) : R P a' s' := by
   obtain ⟨m1, m2, m3, m4, m5⟩ := ao.same
   have fr := ao.frame
-  refine ⟨wf, ao.pg r.pg, aok, nfa, by rw [m5, r.src, hsrc], by rw [m3, m2, r.cur, hcur], by rw [hcur, hsrc]; exact r.inb,
+  refine ⟨wf, ao.pg r.pg, aok, nfa, by rw [m5, r.src, hsrc], by rw [m3, m2, r.cur, hcur],
     by rw [fr.ps]; exact r.ps, by rw [fr.hasfp, fr.mode]; exact r.modefp, ?_, anch, aanch, by rw [hslp, hlp]; rfl, ?_⟩
   · intro hf; rw [fr.hasfp] at hf; rw [m3]; exact r.base0 hf
   · intro p hp; rw [hlp] at hp; cases hp
@@ -154,8 +154,8 @@ theorem aSetAnchor_right (a : AState) (o A : Nat) (h : a.anchor = some A) (hgt :
   unfold aSetAnchor; rw [h]; simp only []; rw [if_neg (by omega), if_neg (by omega)]
 
 /-- the buffer-level content of `sim_setAnchor`, shared with `SetStableAnchor` -/
-theorem setAnchor_sim {P : Nat} {a : AState} {s : Sess} (r : R P a s) (o : Nat) (st : Option Nat)
-    (hv : o ≤ a.cur ∧ (o = a.cur ∨ ∃ A, a.anchor = some A ∧ A ≤ o)) :
+theorem setAnchor_sim' {P : Nat} {a : AState} {s : Sess} (r : R P a s) (o : Nat) (st : Option Nat)
+    (hle : o ≤ a.cur) (hbs : s.b.hasfp = true → s.b.base ≤ o) :
     (setAnchor s.b o).1 = .ok ∧
     R P { aSetAnchor a o with lastp := none } { b := (setAnchor s.b o).2, lastp := none, stable := st } ∧
     (∃ A', (aSetAnchor a o).anchor = some A') := by
@@ -167,12 +167,12 @@ theorem setAnchor_sim {P : Nat} {a : AState} {s : Sess} (r : R P a s) (o : Nat) 
     cases han : a.anchor with
     | none =>
       rw [aSetAnchor_none a o han]
-      exact ⟨rfl, rfl, (fun A hA => by cases hA; exact ⟨hv.1, Nat.le_refl _⟩), ⟨o, rfl⟩⟩
+      exact ⟨rfl, rfl, (fun A hA => by cases hA; exact ⟨hle, Nat.le_refl _⟩), ⟨o, rfl⟩⟩
     | some A0 =>
       obtain ⟨x1, x2⟩ := r.aanch A0 han
       rcases Nat.lt_trichotomy o A0 with h | h | h
       · rw [aSetAnchor_left a o A0 han h]
-        exact ⟨rfl, rfl, (fun A hA => by cases hA; exact ⟨hv.1, Nat.le_refl _⟩), ⟨o, rfl⟩⟩
+        exact ⟨rfl, rfl, (fun A hA => by cases hA; exact ⟨hle, Nat.le_refl _⟩), ⟨o, rfl⟩⟩
       · rw [aSetAnchor_same a o A0 han h]
         refine ⟨rfl, rfl, (fun A hA => ?_), ⟨A0, han⟩⟩
         have h2 : a.anchor = some A := hA
@@ -191,13 +191,9 @@ theorem setAnchor_sim {P : Nat} {a : AState} {s : Sess} (r : R P a s) (o : Nat) 
   | true =>
     obtain ⟨r1, r2⟩ := r.anch hf
     -- the requested offset is inside the window
-    have hbase : s.b.base ≤ o := by
-      rcases hv.2 with h | ⟨A, hA, hle⟩
-      · rw [h, ← r.cur]; omega
-      · obtain ⟨a0, _, hb⟩ := absAnchor_some (by rw [r1]; exact hA : s.b.absAnchor = some A)
-        omega
-    have hin : o ≤ s.b.base + s.b.n := by have := hv.1; rw [← r.cur] at this; omega
-    have hpos : o - s.b.base ≤ s.b.pos := by have := hv.1; rw [← r.cur] at this; omega
+    have hbase : s.b.base ≤ o := hbs hf
+    have hin : o ≤ s.b.base + s.b.n := by have := hle; rw [← r.cur] at this; omega
+    have hpos : o - s.b.base ≤ s.b.pos := by have := hle; rw [← r.cur] at this; omega
     cases han : a.anchor with
     | none =>
       have hcn : s.b.anchor = none := (absAnchor_eq_none s.b).mp (by rw [r1, han])
@@ -251,15 +247,41 @@ theorem setAnchor_sim {P : Nat} {a : AState} {s : Sess} (r : R P a s) (o : Nat) 
         rw [aSetAnchor_right a o A0 han h]
         exact ⟨r1, r2⟩
 
+/-- inside the contract -/
+theorem setAnchor_sim {P : Nat} {a : AState} {s : Sess} (r : R P a s) (o : Nat) (st : Option Nat)
+    (hv : o ≤ a.cur ∧ (o = a.cur ∨ ∃ A, a.anchor = some A ∧ A ≤ o)) :
+    (setAnchor s.b o).1 = .ok ∧
+    R P { aSetAnchor a o with lastp := none } { b := (setAnchor s.b o).2, lastp := none, stable := st } ∧
+    (∃ A', (aSetAnchor a o).anchor = some A') := by
+  refine setAnchor_sim' r o st hv.1 (fun hf => ?_)
+  obtain ⟨r1, _⟩ := r.anch hf
+  rcases hv.2 with h | ⟨A, hA, hle⟩
+  · rw [h, ← r.cur]; omega
+  · obtain ⟨a0, _, hb⟩ := absAnchor_some (by rw [r1]; exact hA : s.b.absAnchor = some A)
+    omega
+
 theorem R.stable_irrel {P : Nat} {a : AState} {s s' : Sess} (r : R P a s) (hb : s'.b = s.b) (hl : s'.lastp = s.lastp) :
     R P a s' := by
   refine ⟨by rw [hb]; exact r.wf, by rw [hb]; exact r.pg, by rw [hb]; exact r.aok, by rw [hb]; exact r.nfa,
-    by rw [hb]; exact r.src, by rw [hb]; exact r.cur, r.inb, by rw [hb]; exact r.ps, by rw [hb]; exact r.modefp,
+    by rw [hb]; exact r.src, by rw [hb]; exact r.cur, by rw [hb]; exact r.ps, by rw [hb]; exact r.modefp,
     by rw [hb]; exact r.base0, by rw [hb]; exact r.anch, r.aanch, by rw [hb, hl]; exact r.lastp, r.lastp_le⟩
 
-theorem sim_setAnchor (P : Nat) (o : Nat) : SimStep P (.setAnchor o) := by
-  intro a s r hv
-  obtain ⟨h1, h2, _⟩ := setAnchor_sim r o none hv
+/-- inside the contract the requested anchor offset is not left of the window -/
+theorem valid_anchor_base {P : Nat} {a : AState} {s : Sess} (r : R P a s) (o : Nat)
+    (hv : o ≤ a.cur ∧ (o = a.cur ∨ ∃ A, a.anchor = some A ∧ A ≤ o)) (hf : s.b.hasfp = true) : s.b.base ≤ o := by
+  obtain ⟨r1, _⟩ := r.anch hf
+  rcases hv.2 with h | ⟨A, hA, hle⟩
+  · rw [h, ← r.cur]; omega
+  · obtain ⟨a0, _, hb⟩ := absAnchor_some (by rw [r1]; exact hA : s.b.absAnchor = some A)
+    omega
+
+/-- `SetAnchor` at an offset of the window at or before the cursor simulates the specification step
+    (this is more than the contract `Valid` grants: also offsets left of the active anchor) -/
+theorem sim_setAnchor' (P : Nat) (o : Nat) (a : AState) (s : Sess) (r : R P a s) (hle : o ≤ a.cur)
+    (hbs : s.b.hasfp = true → s.b.base ≤ o) :
+    obsOf (.setAnchor o) (s.step (.setAnchor o)).1 (s.step (.setAnchor o)).2 = (specStep a (.setAnchor o)).1 ∧
+    R P (specStep a (.setAnchor o)).2 (s.step (.setAnchor o)).2 := by
+  obtain ⟨h1, h2, _⟩ := setAnchor_sim' r o none hle hbs
   have hcur := h2.cur
   refine ⟨?_, h2.stable_irrel rfl rfl⟩
   show (⟨(setAnchor s.b o).1, [], (setAnchor s.b o).2.base + (setAnchor s.b o).2.pos⟩ : Obs) = ⟨.ok, [], a.cur⟩
@@ -267,7 +289,6 @@ theorem sim_setAnchor (P : Nat) (o : Nat) : SimStep P (.setAnchor o) := by
   have : (setAnchor s.b o).2.base + (setAnchor s.b o).2.pos = (aSetAnchor a o).cur := hcur
   rw [this]
   have hc : (aSetAnchor a o).cur = a.cur := by
-    have := h2.inb
     cases han : a.anchor with
     | none => rw [aSetAnchor_none a o han]
     | some A0 =>
@@ -276,6 +297,9 @@ theorem sim_setAnchor (P : Nat) (o : Nat) : SimStep P (.setAnchor o) := by
       · rw [aSetAnchor_same a o A0 han h]
       · rw [aSetAnchor_right a o A0 han h]
   rw [hc]
+
+theorem sim_setAnchor (P : Nat) (o : Nat) : SimStep P (.setAnchor o) := fun a s r hv =>
+  sim_setAnchor' P o a s r hv.1 (valid_anchor_base r o hv)
 
 /-! ### SetStableAnchor -/
 
@@ -298,7 +322,7 @@ theorem R.rebase {P : Nat} {a : AState} {b1 : Buf} {st st' : Option Nat} (r1 : R
   have hanch := r1.anch hf
   have haok : AnchOK b1 := r1.aok
   have hlast : (none : Option Nat).map (b1.base + ·) = a.lastp := r1.lastp
-  refine ⟨dropFront_wf hwf0 a1 hle (by intro x hx; simp at hx; omega), ?_, ?_, ?_, hsrc, ?_, r1.inb, hps, hmode, ?_, ?_, r1.aanch,
+  refine ⟨dropFront_wf hwf0 a1 hle (by intro x hx; simp at hx; omega), ?_, ?_, ?_, hsrc, ?_, hps, hmode, ?_, ?_, r1.aanch,
     ?_, r1.lastp_le⟩
   · -- page guarantee
     show (dropFront { b1 with anchor := some 0 } a1).pagesize ≤ (dropFront { b1 with anchor := some 0 } a1).n -
@@ -326,10 +350,11 @@ theorem R.rebase {P : Nat} {a : AState} {b1 : Buf} {st st' : Option Nat} (r1 : R
   · show (none : Option Nat).map _ = a.lastp
     rw [← hlast]; rfl
 
-theorem sim_setStableAnchor (P : Nat) (o : Nat) : SimStep P (.setStableAnchor o) := by
-  intro a s r hv
-  have hv' : o ≤ a.cur ∧ (o = a.cur ∨ ∃ A, a.anchor = some A ∧ A ≤ o) := hv
-  obtain ⟨h1, h2, A', hA'⟩ := setAnchor_sim r o (s.step (.setStableAnchor o)).2.stable hv'
+theorem sim_setStableAnchor' (P : Nat) (o : Nat) (a : AState) (s : Sess) (r : R P a s) (hle : o ≤ a.cur)
+    (hbs : s.b.hasfp = true → s.b.base ≤ o) :
+    obsOf (.setStableAnchor o) (s.step (.setStableAnchor o)).1 (s.step (.setStableAnchor o)).2 = (specStep a (.setStableAnchor o)).1 ∧
+    R P (specStep a (.setStableAnchor o)).2 (s.step (.setStableAnchor o)).2 := by
+  obtain ⟨h1, h2, A', hA'⟩ := setAnchor_sim' r o (s.step (.setStableAnchor o)).2.stable hle hbs
   have hc : (aSetAnchor a o).cur = a.cur := by
     cases han : a.anchor with
     | none => rw [aSetAnchor_none a o han]
@@ -374,5 +399,8 @@ theorem sim_setStableAnchor (P : Nat) (o : Nat) : SimStep P (.setStableAnchor o)
     · refine r2.stable_irrel ?_ rfl
       show (setStableAnchor s.b o).2 = _
       rw [e]
+
+theorem sim_setStableAnchor (P : Nat) (o : Nat) : SimStep P (.setStableAnchor o) := fun a s r hv =>
+  sim_setStableAnchor' P o a s r hv.1 (valid_anchor_base r o hv)
 
 end EaselModel.Buffer
